@@ -425,3 +425,41 @@ def capture_stdout(fn):
     with redirect_stdout(buf):
         r = fn()
     return r, buf.getvalue()
+
+
+def replay_terminal(prop, path, oracles, step_oracles=()):
+    """Re-execute the recorded program of a replay file through the given terminal oracles, without the explorer.
+    Prints what the oracles report; returns 1 if the violation reproduces, 0 otherwise."""
+    import json
+
+    case = json.load(open(path))["case"]
+    data = bytes.fromhex(case["bytes"]["hex"])
+    if case.get("kind") == "step":
+        data = data + b"."
+
+    class _C:
+        def __init__(self):
+            self.prop = prop
+            self.opts = {"seqlen": 3, "fine": True}
+
+        def labels(self, seq):
+            return list(seq)
+
+    out = Out()
+    term = Term(_C(), tuple(case.get("program") or ["replay"]), data)
+    print("program:", " ".join(case.get("program") or []) or case.get("tag") or "(bytes)")
+    try:
+        import pickletools
+
+        pickletools.dis(data if len(data) < 300 else data[:300])
+    except Exception as e:  # noqa: BLE001
+        print("(not disassemblable:", e, ")")
+    ok, src = term.src
+    print("decompiled:\n" + (src if ok else f"  <refused: {type(src).__name__}: {src}>"))
+    for orc in oracles:
+        orc(term, out)
+    for sig, lst in out.viol.items():
+        print("REPRODUCED", sig, "::", lst[0][2][:500])
+    if not out.viol:
+        print("not reproduced on this tree")
+    return 1 if out.viol else 0
